@@ -282,6 +282,12 @@ class CallLog:
         return orig
 
 
+def _scalar(x):
+    """the value of a misfit however the target spelled it: float, numpy scalar, 0-d / (1,) / (1, 1) array"""
+    a = np.asarray(x, dtype=float)
+    return float(a.reshape(-1)[0]) if a.size == 1 else float(a)
+
+
 def snapshot_sampler_class(base):
     """Subclass of HMC / RWMH (or visual variants) that records the documented attributes before
     and after every acceptance evaluation."""
@@ -297,7 +303,7 @@ def snapshot_sampler_class(base):
                 self._v_transitions = []
             pre = {
                 "model": np.array(self.current_model, dtype=float).copy(),
-                "x": float(self.current_x),
+                "x": _scalar(self.current_x),
                 "accepted": int(self.accepted_proposals),
                 "proposed_model": np.array(self.proposed_model, dtype=float).copy(),
                 "stepsize": _copy_step(self.stepsize),
@@ -318,9 +324,9 @@ def snapshot_sampler_class(base):
             r = super()._evaluate_acceptance()
             post = {
                 "model": np.array(self.current_model, dtype=float).copy(),
-                "x": float(self.current_x),
+                "x": _scalar(self.current_x),
                 "accepted": int(self.accepted_proposals),
-                "proposed_x": float(self.proposed_x),
+                "proposed_x": _scalar(self.proposed_x),
             }
             rec = {"pre": pre, "post": post}
             if self._v_rng_mark is not None:
